@@ -127,3 +127,30 @@ Definition looplocal_sem (id : Z) (args : list (option val)) : option val :=
   | 5 => match args with [Some (VI a)] => Some (VI a) | _ => None end
   | _ => None
   end.
+
+Definition nv : ident := [118].
+
+(* w = 0
+   while True:
+       v = w * 2             -- first assigned at body level: a local of loop(), assigned before use
+       if v > 2:
+           v = v + 100
+       mon.write(v)
+       w = w + 1                                                                             *)
+Definition demo_local : pprog :=
+  {| p_pre := [ PAssign nw (mk 1 TyInt true []) ];
+     p_main := Some [ PAssign nv (mk 2 TyInt false [nw]);
+                      PIf (mk 3 TyBool false [nv]) [ PAssign nv (mk 4 TyInt false [nv]) ] [] [];
+                      PWrite (mk 5 TyInt false [nv]);
+                      PAssign nw (mk 6 TyInt false [nw]) ] |}.
+Definition demo_local_sem (id : Z) (args : list (option val)) : option val :=
+  match id with
+  | 1 => Some (VI 0)
+  | 2 => match args with [Some (VI a)] => Some (VI (a * 2)) | _ => None end
+  | 3 => match args with [Some (VI a)] => Some (VB (2 <? a)) | _ => None end
+  | 4 => match args with [Some (VI a)] => Some (VI (a + 100)) | _ => None end
+  | 5 => match args with [Some (VI a)] => Some (VI a) | _ => None end
+  | 6 => match args with [Some (VI a)] => Some (VI (a + 1)) | _ => None end
+  | _ => None
+  end.
+Definition demo_local_trace : list ev := [EvSer (VI 0); EvSer (VI 2); EvSer (VI 104)].
